@@ -131,7 +131,7 @@ def in_domain(g, op):
     if k == 'ak':
         a, b = g.column.get(op[1]), g.column.get(op[2])
         if a is None or b is None or (op[1], op[2]) in g.connection: return True
-        if a is b: return False
+        if a is b or (op[2], op[1]) in g.connection: return False          # the two columns are connected already
         nd = g.connection_nodes([a, b])
         return nd is not None
     if k in ('rc', 'rl'):
@@ -143,6 +143,7 @@ def in_domain(g, op):
             if new in cur: return False
             cur.add(new)
         return True
+    if k in L.COMPOUND: return L.conforming(g)      # the quantifier ranges over meshes: no overlapping columns
     return True
 
 
@@ -160,7 +161,7 @@ HELPERS = {'ss': ('name-lists',), 'tr': ('name-lists', 'neighbours', 'valid-mesh
                                            # which refresh the name lists afterwards: not an edit of its own
 
 
-def judge(g, op, dom, broken, out, t):
+def judge(g, op, dom, broken, out, t, before=None):
     """evaluate the statement after edit number t.  A clause that was intact before the edit and is broken
     after it is attributed to the edit when the edit's arguments are inside the quantifier and the object
     graph it works on was intact (otherwise the break is a consequence of an earlier one)."""
@@ -172,8 +173,18 @@ def judge(g, op, dom, broken, out, t):
             if not sound: out.outside.append('consequence-of-an-earlier-break')
             elif dom and cls not in HELPERS.get(op[0], ()): out.fails.append((t, key, now[cls]))
             else: out.outside.append(key)
-    if op[0] in L.PROMISES_VALID_MESH and dom and sound:
-        d = L.mesh_defects(g)
+    if op[0] in L.PROMISES_VALID_MESH and dom and sound and before is not None:
+        # check(fix) / reduce repair everything; refine / decompose_columns add the missing connections and must not
+        # create extra connections or orphan nodes
+        miss, extra, orph = L.mesh_defect_sets(g)
+        d = []
+        if miss: d.append('missing connections %s' % sorted(miss)[:4])
+        if op[0] in ('cf', 'rd'):
+            if extra: d.append('extra connections %s' % sorted(extra)[:4])
+            if orph: d.append('orphan nodes %s' % sorted(orph)[:4])
+        else:
+            if extra - before[1]: d.append('new extra connections %s' % sorted(extra - before[1])[:4])
+            if orph - before[2]: d.append('new orphan nodes %s' % sorted(orph - before[2])[:4])
         if d: out.fails.append((t, '%s:valid-mesh' % L.OP_METHOD[op[0]], d))
     return set(now)
 
@@ -187,6 +198,7 @@ def run_impl_sequence(g, ops, hash_mode=False):
         if op[0] in L.HINTED and (broken & set(STRUCTURAL)):
             break        # set-iteration order decides what a compound edit does on an inconsistent object graph: not compared
         dom = in_domain(g, op)
+        before = L.mesh_defect_sets(g) if op[0] in L.PROMISES_VALID_MESH and dom else None
         g, opf, err = L.apply_op_h(g, op)
         out.full.append(opf)
         if err:
@@ -196,7 +208,7 @@ def run_impl_sequence(g, ops, hash_mode=False):
         out.steps += 1
         d = L.dump(g)
         out.obs.append(L.adler(d) if hash_mode else d)
-        broken = judge(g, op, dom, broken, out, t)
+        broken = judge(g, op, dom, broken, out, t, before)
     return out
 
 
@@ -212,38 +224,46 @@ def fresh_colname(g, k=0):
 
 
 def alphabet(g, n, level):
-    """edits tried at a node of the exhaustive tree whose current geometry is `g`"""
+    """edits tried at a node of the exhaustive tree whose current geometry is `g`.
+    level 0: a core of every kind of edit; level 1: every column / corner / connection as argument, malformed calls;
+    level 2: every column subset as argument of the operations that take a column list"""
     ops = []
     cols = list(g.columnlist)
     names = [c.name for c in cols]
-    for c in cols:
-        if len(c.node) == 4:
-            for nd in c.node: ops.append(('sp', c.name, nd.name))
-        elif level > 0: ops.append(('sp', c.name, c.node[0].name))
-    if cols and level > 0:
-        other = [nd for nd in g.nodelist if nd not in cols[0].node]
-        if other: ops.append(('sp', cols[0].name, other[0].name))
-        ops.append(('sp', '?' * g.colname_length, cols[0].node[0].name))
-    for nm in names: ops.append(('dc', nm))
+    lays = [l.name for l in g.layerlist]
+    few = (lambda l, k=1: l[:k]) if level == 0 else (lambda l, k=1: l)
+    quads = [c for c in cols if len(c.node) == 4]
+    for c in few(quads):
+        for nd in c.node: ops.append(('sp', c.name, nd.name))
+    if level > 0:
+        for c in cols:
+            if len(c.node) != 4: ops.append(('sp', c.name, c.node[0].name))
+        if cols:
+            other = [nd for nd in g.nodelist if nd not in cols[0].node]
+            if other: ops.append(('sp', cols[0].name, other[0].name))
+            ops.append(('sp', '?' * g.colname_length, cols[0].node[0].name))
+    for nm in few(names, 2): ops.append(('dc', nm))
     z = fresh_colname(g)
-    for i, nm in enumerate(names): ops.append(('rc', [nm], [z], (n + i) % 2))
+    for i, nm in enumerate(few(names)): ops.append(('rc', [nm], [z], (n + i) % 2))
     if len(names) >= 2:
         ops.append(('rc', [names[0], names[1]], [z, fresh_colname(g, 1)]))
-        ops.append(('rc', [names[0], names[1]], [names[1], names[0]]))        # swap through a taken name: outside
-        ops.append(('rc', [names[0]], [names[1]]))                           # onto a taken name: outside
-    lays = [l.name for l in g.layerlist]
-    for i, nm in enumerate(lays[:3]): ops.append(('rl', [nm], ['zz'[-g.layername_length:].rjust(g.layername_length)], (n + i) % 2))
-    for key in list(g.connection.keys()): ops.append(('dk', key[0], key[1]))
-    seen = 0
+        if level > 0:
+            ops.append(('rc', [names[0], names[1]], [names[1], names[0]]))        # swap through a taken name: outside
+            ops.append(('rc', [names[0]], [names[1]]))                           # onto a taken name: outside
+    for i, nm in enumerate(few(lays[:3])): ops.append(('rl', [nm], ['zz'[-g.layername_length:].rjust(g.layername_length)], (n + i) % 2))
+    for key in few(list(g.connection.keys())): ops.append(('dk', key[0], key[1]))
+    seen, found = 0, 0
     for a, b in itertools.combinations(cols, 2):
         if (a.name, b.name) in g.connection or (b.name, a.name) in g.connection: continue
-        if a.is_against(b): ops.append(('ak', a.name, b.name))
+        if a.is_against(b):
+            if level > 0 or found < 1: ops.append(('ak', a.name, b.name)); found += 1
         elif seen < 1 and level > 0: ops.append(('ak', a.name, b.name)); seen += 1      # not adjacent: outside
     if g.connection and level > 0:
         key = next(iter(g.connection.keys())); ops.append(('ak', key[1], key[0]))        # reverse duplicate
-    orph = [nd.name for nd in g.nodelist if len(nd.column) == 0]
-    for nm in orph: ops.append(('dn', nm))
-    if g.nodelist and level > 0: ops.append(('dn', [nd for nd in g.nodelist if nd.column][0].name if [nd for nd in g.nodelist if nd.column] else '???'))
+    for nm in few([nd.name for nd in g.nodelist if len(nd.column) == 0]): ops.append(('dn', nm))
+    if level > 0:
+        used = [nd for nd in g.nodelist if nd.column]
+        ops.append(('dn', used[0].name if used else '???'))
     ops.append(('an', ' zn'[-g.colname_length:].rjust(g.colname_length), 3.0, 4.0))
     if len(g.nodelist) >= 3:
         c0 = cols[0] if cols else None
@@ -258,23 +278,28 @@ def alphabet(g, n, level):
         ops.append(('nl', names[0]))
         if len(g.layerlist) > 1:
             ops.append(('ss', names[-1], g.layerlist[1].bottom))            # surface exactly on a layer bottom
-            ops.append(('ss', names[0], 0.5 * (g.layerlist[1].bottom + g.layerlist[1].top)))
+            if level > 0: ops.append(('ss', names[0], 0.5 * (g.layerlist[1].bottom + g.layerlist[1].top)))
     # ---- compound operations, with every column subset as argument where a column list is taken
     if level >= 2:
         subsets = [list(x) for r in range(1, len(names) + 1) for x in itertools.combinations(names, r)] if len(names) <= 5 else \
                   [[nm] for nm in names] + [names[:2], names[1:4], names[::2], names]
-    else:
+    elif level == 1:
         subsets = [[nm] for nm in names[:2]] + ([names[:2]] if len(names) > 1 else []) + ([names] if len(names) > 2 else [])
+    else:
+        subsets = [names[:1]] + ([names[1:]] if len(names) > 1 else [])
     for sub in subsets:
+        if not sub: continue
         ops.append(('rf', sub)); ops.append(('rd', sub))
         if level >= 2 or len(sub) == 1: ops.append(('de', sub))
-        if len(g.layerlist) > 1: ops.append(('sn', 3.0, sub))
+        if len(g.layerlist) > 1 and level > 0: ops.append(('sn', 3.0, sub))
     ops.append(('rf', []))
     ops.append(('cf',))
-    for c in cols[:2 if level < 2 else 6]: ops.append(('tr', c.name))
+    for c in cols[:(1 if level == 0 else 2 if level == 1 else 6)]: ops.append(('tr', c.name))
     if len(g.layerlist) > 1:
-        ops.append(('ry', [], 2)); ops.append(('ry', [lays[1]], 4 if level >= 2 else 2))
-        ops.append(('sn', 6.0, [])); ops.append(('sr', [])); ops.append(('sr', names[:1]))
+        ops.append(('ry', [], 2))
+        if level > 0: ops.append(('ry', [lays[1]], 4 if level >= 2 else 2))
+        ops.append(('sn', 6.0, [])); ops.append(('sr', []))
+        if level > 0: ops.append(('sr', names[:1]))
         ops.append(('cl', [(lays[0], 0., 0., 0.), ('zz'[-g.layername_length:].rjust(g.layername_length), -4., -2., 0.), (lays[1], -12., -8., -4.)]))
     ops.append(('tl', 5., -3., 2.)); ops.append(('ro', 30.))
     return ops
@@ -363,7 +388,7 @@ def exhaustive_worker(args):
             leaf(prefix_ops); return
         if len(prefix_ops) == depth:
             leaf(prefix_ops); return
-        alpha = alphabet(g, len(prefix_ops), level)
+        alpha = alphabet(g, len(prefix_ops), level[min(len(prefix_ops), len(level) - 1)])
         if not prefix_ops: alpha = [alpha[i] for i in first_idx if i < len(alpha)]
         for op in alpha: rec(prefix_ops + [op])
 
@@ -373,7 +398,7 @@ def exhaustive_worker(args):
 
 
 def n_first_level(init, level):
-    return len(alphabet(start_geometry(init), 0, level))
+    return len(alphabet(start_geometry(init), 0, level[0]))
 
 
 # ----------------------------------------------------------------------------------------------
@@ -539,6 +564,7 @@ def random_worker(args):
             if op[0] in L.HINTED and (broken & set(STRUCTURAL)): continue
             ops.append(op)
             dom = in_domain(g, op)
+            before = L.mesh_defect_sets(g) if op[0] in L.PROMISES_VALID_MESH and dom else None
             g, opf, err = L.apply_op_h(g, op)
             out.full.append(opf)
             if err:
@@ -546,7 +572,7 @@ def random_worker(args):
             out.steps += 1
             d = L.dump(g)
             out.obs.append(L.adler(d) if hash_mode else d)
-            broken = judge(g, op, dom, broken, out, t)
+            broken = judge(g, op, dom, broken, out, t, before)
         case = {'init': init, 'ops': [list(o) for o in ops]}
         line = line0 + ''.join('\t' + L.encode_op(o) for o in out.full)
         record(stats, case, ops, out, line)
@@ -653,11 +679,12 @@ def run(ctx):
     r32 = {'kind': 'rect', 'params': [3, 2, 2, 0, 1], 'surface': [None, -3., None]}
     r22b = {'kind': 'rect', 'params': [2, 2, 2, 3, 2]}
     mix = {'kind': 'mixed', 'params': [0, 2]}
+    # (start, depth, alphabet level at each depth)
     if ctx.thorough:
-        plan = [(r22, 3, 0), (r32, 3, 0), (mix, 3, 0), (r22b, 2, 1), (mix, 2, 1)]
+        plan = [(r22, 3, (1, 0, 0)), (r22, 2, (2, 2)), (r32, 3, (0, 0, 0)), (r32, 2, (1, 2)), (mix, 3, (0, 0, 0)), (mix, 2, (2, 2)), (r22b, 2, (1, 1))]
         nrand, nbig = 1500, 300
     else:
-        plan = [(r22, 2, 1), (r32, 2, 0), (mix, 2, 1), (r22b, 2, 0)]
+        plan = [(r22, 2, (1, 1)), (r22, 1, (2,)), (r32, 2, (0, 0)), (mix, 2, (0, 1)), (mix, 1, (2,)), (r22b, 2, (0, 0))]
         nrand, nbig = 160, 32
     tot = sweep(ctx, exe, fixbits, plan, nrand, nbig, 25)
     ctx.extra['exhaustive'] = True
@@ -669,7 +696,7 @@ def run(ctx):
     def deep(broken):
         ctx.log('deep search: oracle-only sweep at greater depth')
         ctx.rng = random.Random(ctx.seed + 4242)
-        sweep(ctx, None, fixbits, [(r22, 2, 1), (mix, 2, 1)], 600, 60, 25, label='(deep)')
+        sweep(ctx, None, fixbits, [(r22, 2, (1, 1)), (mix, 2, (1, 1))], 600, 60, 25, label='(deep)')
     return ctx.finish(deep_search=deep)
 
 
